@@ -272,9 +272,12 @@ Print Assumptions c06_passive_votes_never_count.
 (* ====================================================================== *)
 (* Histories on ONE QuorumSensing / EmergencyQuorum instance: any sequence of
    run_vote, add_agent, remove_agent, set_agent_weight, set_strategy,
-   min_voters assignment, update_reliability, update_all_reliability.
-   [trace lg st ops] lists every vote of the history with the instance state it
-   was taken in. *)
+   min_voters assignment, update_reliability, update_all_reliability,
+   assignment of the on_quorum_reached / on_quorum_failed callbacks (absent,
+   returning, raising), and run_vote calls that are abandoned because a voter's
+   agent raises a BaseException.  [trace lg st ops] lists every vote of the
+   history that was aggregated (whether its result was then returned to the
+   caller or a callback raised) with the instance state it was taken in. *)
 
 (* Every vote's outcome is the aggregation of the ballot cast by the colony of
    the state reached by the operations before it, under the configuration of
@@ -335,3 +338,62 @@ Theorem c06_history_unanimous_PERMIT :
     is_permit o = true.
 Proof. exact history_unanimous_proof. Qed.
 Print Assumptions c06_history_unanimous_PERMIT.
+
+(* ---------------------------------------------------------------------- *)
+(* run_vote calls that do not return, callbacks                              *)
+
+(* lifted: the reported counts of EVERY vote of a history equal the ballots cast
+   in THAT vote by the colony of that moment - also after votes whose callback
+   raised and after abandoned votes *)
+Theorem c06_history_counts_exact :
+  forall lg st ops s sc o r,
+    In (s, sc, o) (trace lg st ops) -> o = Result r ->
+    let voters := voters_of (s_colony s) sc in
+    r_total r = len (s_colony s) /\
+    r_permit r = count_voters (casts Permit) voters /\
+    r_block r = count_voters (casts Block) voters /\
+    r_abstain r = count_voters (casts Abstain) voters /\
+    r_votes r = collect voters.
+Proof. exact history_counts_proof. Qed.
+Print Assumptions c06_history_counts_exact.
+
+(* No ballot outlives the call it was cast in: whatever a run_vote call does and
+   however it ends (result returned / callback raised after the result was
+   recorded / aggregator raised / abandoned during collection), the vote that
+   follows it is decided exactly as if that call had not happened. *)
+Theorem c06_vote_after_any_call_is_fresh :
+  forall lg st o sc2,
+    (match o with OVote _ | OInterrupted _ _ => True | _ => False end) ->
+    let st' := fst (step lg st o) in
+    run_vote lg (s_cfg st') (voters_of (s_colony st') sc2) =
+    run_vote lg (s_cfg st) (voters_of (s_colony st) sc2).
+Proof. exact vote_after_call_proof. Qed.
+Print Assumptions c06_vote_after_any_call_is_fresh.
+
+(* Callbacks never influence a verdict or the state: a history and the same
+   history with every callback removed yield the same outcomes, vote by vote,
+   and the same final state (up to the callbacks themselves). *)
+Theorem c06_history_callbacks_never_influence :
+  forall lg ops st,
+    run_history lg st ops = run_history lg (strip st) (filter not_callback_op ops) /\
+    strip (final_state lg st ops) = final_state lg (strip st) (filter not_callback_op ops).
+Proof. exact callbacks_irrelevant_proof. Qed.
+Print Assumptions c06_history_callbacks_never_influence.
+
+(* on_quorum_reached is invoked only for a vote that is reached / PERMIT ... *)
+Theorem c06_history_reached_callback_only_if_PERMIT :
+  forall lg st ops s sc o,
+    In (s, sc, o) (trace lg st ops) ->
+    fired s o = Some true -> is_reached o = true /\ is_permit o = true.
+Proof. exact fired_reached_proof. Qed.
+Print Assumptions c06_history_reached_callback_only_if_PERMIT.
+
+(* ... hence never for a vote in which nobody permits, whatever happened before *)
+Theorem c06_history_no_permit_no_reached_callback :
+  forall st ops s sc o,
+    In (s, sc, o) (trace false st ops) ->
+    valid_thr (s_cfg s) ->
+    (forall x, In x (voters_of (s_colony s) sc) -> casts Permit x = false) ->
+    fired s o <> Some true.
+Proof. exact history_no_permit_no_reached_callback. Qed.
+Print Assumptions c06_history_no_permit_no_reached_callback.
